@@ -116,6 +116,64 @@ def reconnect_decision(persistent: bool, always: bool, wait: int, elapsed: int, 
                     "a peer is dialled iff persistent, without a connection, its reconnect wait has elapsed, not (lost after a DPR and not always-reconnect), and the node is not stopping")
 
 
+LOSSES = ["gone", "socket_error", "dpr_then_gone", "dwa_timeout", "node_close", "cea_rejected"]
+
+
+def reconnect_after_loss(loss: int, always: bool, wait: int, e1: int, prior: bool) -> bool:
+    """
+    pre: 0 <= loss < len(LOSSES) and 1 <= wait <= 60 and 0 <= e1 <= 100
+    post: _
+    """
+    hx.begin()
+    ls = LOSSES[hx.concretize_range(loss, 0, len(LOSSES))]
+    inputs = (loss, always, wait, e1, prior)
+    try:
+        h = H.Hist(init="fresh", persistent=True)
+        n, p = h.n, h.p
+        p.always_reconnect = bool(always)
+        p.reconnect_wait = wait
+        n.idle_timeout = 100000
+        if prior:
+            # an earlier, unrelated loss long ago
+            h.ev_dial("ok")
+            h.ev_cea(2001)
+            h.ev_gone(h.newest())
+            WORLD.now += 1000
+        h.ev_dial("ok")
+        if ls != "cea_rejected":
+            h.ev_cea(2001)
+        c = h.newest()
+        if c is None:
+            return hx.fail(inputs, "bench: no outbound connection")
+        if ls == "gone":
+            h.ev_gone(c)
+        elif ls == "socket_error":
+            h.ev_err(c)
+        elif ls == "dpr_then_gone":
+            h.ev_dpr()
+            h.ev_gone(c)
+        elif ls == "dwa_timeout":
+            n.send_dwr(c)
+            h.settle()
+            n.close_connection_socket(c, B.DISCONNECT_REASON_DWA_TIMEOUT)
+            h.settle()
+        elif ls == "node_close":
+            n.close_connection_socket(c, B.DISCONNECT_REASON_UNKNOWN)
+            h.settle()
+        else:
+            h.ev_cea(5010)
+        lost_at = WORLD.now
+        WORLD.dialled.clear()
+        WORLD.now = lost_at + e1
+        WORLD.connect_plan.append("refused")          # the attempt itself fails at once: only the decision is observed
+        n._reconnect_peers()
+        obs = (len(WORLD.dialled), p.connection is None)
+    except Exception as e:
+        return hx.fail(inputs, "raised %s: %s" % (type(e).__name__, str(e)[:80]))
+    should = e1 >= wait and not (ls == "dpr_then_gone" and not always)
+    return hx.check(inputs, obs, (1 if should else 0, True), "after a real loss a persistent peer is dialled again iff its reconnect wait (counted from that loss) has elapsed, unless the loss followed a DPR and it is not always-reconnect")
+
+
 # ----------------------------------------------------------------------------- 3. histories: never two self-initiated connections; non-persistent peers never dialled
 EVENTS = ["accept", "cer_known", "cea_ok", "cea_reject", "dpr_old", "gone_new", "gone_old", "err_new", "tick5", "tick31", "close_old", "conn_result_flip"]
 
@@ -169,6 +227,8 @@ def specs(tier, seed, carve):
     out = [dict(id="dpr_step", fn="dpr_step", params={}, timeout=900, bound="inbound/outbound x READY/awaiting-DWA x with/without a pending request x {nothing, any of %d message kinds} after the DPR" % len(MSG_KINDS)),
            dict(id="reconnect_decision", fn="reconnect_decision", params={}, timeout=900,
                 bound="all values: persistent, always_reconnect, reconnect_wait 1..60, elapsed 0..200, 11 disconnect reasons, stopping, has-connection, addresses, ever-disconnected")]
+    out.append(dict(id="reconnect_after_loss", fn="reconnect_after_loss", params={}, timeout=900,
+                    bound="persistent peer, outbound connection lost by {peer gone, socket error, DPR then gone, watchdog timeout, node close, CEA rejected}; always_reconnect, reconnect_wait 1..60, elapsed 0..100 symbolic"))
     ne = len(EVENTS)
     for persistent in (True, False):
         for init in ("ready_outbound", "ready_inbound"):
